@@ -9,6 +9,7 @@ use proto::*;
 
 mod bio;
 mod chan_adm;
+mod chan_api;
 mod chan_bundle;
 mod chan_cli;
 mod chan_corrupt;
@@ -70,6 +71,8 @@ fn run_tokens(toks: &[&str]) -> String {
         "SCHEDX" => chan_now::schedx(args),
         "VALIDATE" => chan_ops::validate(args),
         "OPS" => chan_ops::ops(args),
+        "OPSA" => chan_ops::ops(args), // model side: update_extensions written with the block-level operations
+        "API" => chan_api::api(args),
         "CLI" => chan_cli::cli(args),
         "ID" => chan_id::id(args),
         "IDPAIR" => chan_id::idpair(args),
